@@ -301,6 +301,7 @@ _EDITS = [
  ("C07", "closing_temperature_is_where_pocket_closes (", "exit_search_spec (_pocket_exit_index returns the row before the FIRST row, up to and including the pinch row, whose value has dropped to h0 - tol, every row passed over staying above it; false of the code under seeded change C07-exit-search-skips-pinch-row); closing_temperature_is_where_pocket_closes ("),
  ("C17", "clean_sublist", "knees_and_turning_points_kept (whatever the curve, an interior point that is a turning point of a vertical run or lies more than tol - in kelvin - off the chord of its two neighbours is kept by the middle loop; false of the code under seeded changes C13-vertical-run-drops-turning-point and C17-cross-multiplied-collinearity), repeated_point_keeps_corner (kernel-decided witness of fix bdc25b9), clean_sublist"),
  ("C19", "run_consistent", "isothermal_band (a stream entered with equal supply and target temperature occupies [T, T + iso] when cold and [T - iso, T] when hot), run_consistent"),
+ ("C11", "mutable_defaults_known", "no_shared_state_writes (no statement inside a function of the package assigns to an attribute of a class object, calls setattr on a class or declares a global - AST walk regenerated on every run), mutable_defaults_known"),
  ("C18", "Oracle: 10 refrigerants x random",
   "Oracle: refrigerants (half from 10 common ones, half from every fluid of the property library with a two-phase range above -60 C, 90+ fluids) x random"),
 ]
